@@ -64,7 +64,22 @@ Theorem generated_file_hash_rejects_non_files : forall st n chunking,
   gen_file_calc calculate_file_body calculate_body st n chunking = (None, st).
 Proof. intros st n chunking Hn. destruct n; [destruct Hn| |]; reflexivity. Qed.
 
+(* "... on every filesystem backend": a back end whose handles of one file share a reading position (the tar file system:
+   afero's tarfs).  Whatever was read from the file before — any list of earlier partial reads, complete reads and hash
+   calculations — the hash of the file is H of ALL its bytes, because the library's tar adapter hands out rewound handles:
+   [tar_open_rewinds] is regenerated from utils/filesystem/tarfs.go on every run (Gen.v). *)
+Theorem generated_file_hash_on_shared_handle_backend : forall (ops : list shop) (f : shfile) st chunking,
+  (forall c, all_data (chunking c) = true /\ delivered (chunking c) = c) ->
+  digest_of (sh_file_hash tar_open_rewinds calculate_file_body calculate_body st
+               (fold_left (sh_step tar_open_rewinds) ops f) chunking) = Some (H (sh_content f)).
+Proof.
+  intros ops f st chunking Hc. change tar_open_rewinds with true. unfold sh_file_hash.
+  rewrite sh_rewound_handle_delivers_content, sh_run_content.
+  destruct (Hc (sh_content f)) as [H1 H2]. now apply generated_file_hash_is_content_hash.
+Qed.
+
 End WithH.
+Print Assumptions generated_file_hash_on_shared_handle_backend.
 Print Assumptions digest_history_independent.
 Print Assumptions digest_chunking_independent.
 Print Assumptions digest_only_of_complete_stream.
@@ -80,6 +95,19 @@ Theorem digest_after_failure_refuted_without_reset :
   exists hist s, all_data s = true /\ fst (calc false (run_hist false [] hist) s) <> Some (delivered s).
 Proof. exact no_reset_refuted. Qed.
 Print Assumptions digest_after_failure_refuted_without_reset.
+
+(* Handles that are NOT rewound (the tar adapter before its repair, known_findings.json "fixed"): after one hash
+   calculation the next handle of the same file delivers nothing, the "hash of the file" is H of the empty content. *)
+Theorem file_hash_on_shared_handle_backend_refuted_without_rewind :
+  exists c, c <> [] /\ fst (sh_read_all (sh_open false (sh_step false (mkSh c 0) ShHash))) = [].
+Proof. exact sh_unrewound_refuted. Qed.
+Print Assumptions file_hash_on_shared_handle_backend_refuted_without_rewind.
+
+Example c20_shared_handle_nonvacuous :
+  fst (sh_file_hash tar_open_rewinds calculate_file_body calculate_body [9]%Z
+         (fold_left (sh_step tar_open_rewinds) [ShRead 1; ShHash; ShRead 5] (mkSh [4;5;6]%Z 0)) (fun c => [Data c]))
+  = Some [4;5;6]%Z.
+Proof. reflexivity. Qed.
 
 Example c20_nonvacuous :
   fst (calc true (run_hist true [] [[Data [1;2]%Z; DataErr [3]%Z]; [CancelDuring [9]%Z]; [Data [7]%Z]])
